@@ -162,7 +162,13 @@ def c12a(ck, prog):
         # (3) signature
         sigok, how = False, "no dominating true edge of the signature comparison"
         for fa in facts:
-            if fa.kind == "boolcall" and fa.truth and (fa.call.name == "eq" or fa.call.callee in prog.fns and len(fa.call.args) == 2 and fa.call.fn.locals[fa.call.dest[0]] == "bool" and "verified" in (fa.call.callee or "")):
+            if fa.kind == "boolcall" and ((fa.truth and (fa.call.name == "eq")) or (not fa.truth and fa.call.name == "ne")):
+                # (`if mac != presented { refuse }`: the surviving edge is the false edge of `ne`)
+                if sigok:
+                    continue
+                o_, h_ = check_sig_eq(f, prog, fa.call, nx)
+                sigok, how = o_, h_ + " (switch bb%d)" % fa.sw_bb
+            elif fa.kind == "boolcall" and fa.truth and (fa.call.name == "eq" or fa.call.callee in prog.fns and len(fa.call.args) == 2 and fa.call.fn.locals[fa.call.dest[0]] == "bool" and "verified" in (fa.call.callee or "")):
                 if sigok:
                     continue     # a comparison of the signature was already found; other boolean helpers on the path are not it
                 o_, h_ = check_sig_eq(f, prog, fa.call, nx)
@@ -244,6 +250,9 @@ def whole_slice_helper(prog, h):
     return True, "helper %s: false unless lengths are equal, then one accumulated comparison" % h.name
 
 
+FIXED_ORDER = {}     # helper key -> ["arg2", ".", "arg3"] for the fixed-argument form
+
+
 def mac_helper_summary(prog, H):
     """A local helper `H(&self, chunks) -> bytes` that computes the keyed MAC of the concatenated chunks under self.alg.
     -> ({variant: digest OID name}, how) or (None, why). Accepted shape: every answer of H is, under one arm of a match on
@@ -266,8 +275,9 @@ def mac_helper_summary(prog, H):
         key = decision.describe_deep(H, pl.args[0], 4)
         if "arg1.secret" not in key:
             return None, "arm %s keys the MAC with `%s`, not self.secret" % (variant, key)
-        if decision.describe_deep(H, pl.args[1], 2) != "arg2":
-            return None, "arm %s does not MAC the chunks it was given" % variant
+        passed = [decision.describe_deep(H, a, 2) for a in pl.args[1:]]
+        if passed != ["arg2"] and passed != ["arg%d" % i for i in range(2, 2 + len(passed))]:
+            return None, "arm %s does not MAC the chunks it was given (%s)" % (variant, passed)
         Ms.add(pl.callee)
     if len(Ms) != 1:
         return None, "%s uses %d different MAC functions" % (H.name, len(Ms))
@@ -275,6 +285,30 @@ def mac_helper_summary(prog, H):
     nf = M.calls_to(r"::new_from_slice$")
     up = M.calls_to(r"::update$")
     fin = M.calls_to(r"::finalize$")
+    if len(nf) == 1 and len(fin) == 1 and len(up) >= 2 and M.argc >= 3:
+        # fixed form `M(key, a, b)`: new_from_slice(key); update(a); update("."); update(b); finalize -- no loop, each update
+        # unconditional, in dominance order; the answer is the finalized MAC
+        from .lib.bound import natural_loops as _nl
+        if _nl(M):
+            return None, "%s mixes a loop with several updates" % M.name
+        ups = sorted(up, key=lambda c: len(M.dom_chain(c.bb)))
+        order = []
+        for c in ups:
+            if any(fa.kind in ("cmp", "boolcall", "int", "boolplace", "boolphi") for fa in guards.facts_at(M, prog, c.bb)) or not all(M.dominates(c.bb, e) for e in M.exits()):
+                return None, "an update of %s is conditional" % M.name
+            rc = paths.root_call(M, c.args[0], through=paths.TRANSPARENT + r"|DerefMut>::deref_mut$")
+            if rc is None or rc.bb != nf[0].bb:
+                return None, "an update of %s feeds another MAC" % M.name
+            cc = M.const_args(c)[1]
+            d = decision.describe_deep(M, c.args[1], 4)
+            m_ = re.fullmatch(r"(?:as_bytes\()?(arg\d)\)?", d)
+            order.append(cc["s"] if cc is not None and "s" in cc else (bytes(cc["b"]).decode("latin1") if cc is not None and cc.get("b") else (m_.group(1) if m_ else "?")))
+        okf = (decision.describe_deep(M, nf[0].args[0], 2) == "arg1" and paths.root_call(M, fin[0].args[0]) is not None and paths.root_call(M, fin[0].args[0]).bb == nf[0].bb
+               and all(M.dominates(u.bb, fin[0].bb) for u in ups) and "finalize(" in decision.describe_deep(M, ["c", [0, []]], 8) and "?" not in order)
+        if not okf:
+            return None, "%s does not feed its arguments, in order, into one MAC keyed with its first argument (%s)" % (M.name, order)
+        FIXED_ORDER[H.key] = order
+        return out, "%s -> %s (fixed: %s)" % (H.name, M.name, order)
     if not (len(nf) == 1 and len(up) == 1 and len(fin) == 1):
         return None, "%s is not new_from_slice; update per chunk; finalize" % M.name
     from .lib.bound import natural_loops
@@ -341,6 +375,21 @@ def check_sig_eq(f, prog, eqc, nx):
             sigpart = paths.root_call(f, ry.args[0])
             if sigpart is None or len(nx) < 3 or sigpart.bb != nx[2].bb:
                 return False, "the decoded signature is not the 3rd part"
+            fixed = FIXED_ORDER.get(H.key)
+            if fixed is not None:
+                seq = []
+                for it in fixed:
+                    m_ = re.fullmatch(r"arg(\d)", it)
+                    if not m_:
+                        seq.append(it)
+                        continue
+                    k = int(m_.group(1)) - 1
+                    r = paths.root_call(f, rx.args[k]) if k < len(rx.args) else None
+                    idx = [i for i, n in enumerate(nx) if r is not None and n.bb == r.bb]
+                    seq.append("part%d" % (idx[0] + 1) if idx else "?")
+                if seq != ["part1", ".", "part2"]:
+                    return False, "the helper MACs %s, expected [header part, '.', payload part]" % seq
+                return True, "MAC helper %s (%s) over part1 '.' part2 == base64url(part3), whole-slice eq" % (H.name, ", ".join("%s:%s" % (v, d[3:]) for v, d in sorted(summ.items())))
             ch = chunks_of(f, rx.args[1]) if len(rx.args) > 1 else None
             if ch is None:
                 return False, "the chunk list given to %s is not an array literal" % H.name
@@ -451,6 +500,13 @@ def c12b(ck, prog):
             ok = ok and len(ext) == 2 and exts[0] == ("push", "const '.'") and exts[1][0] == "push_str" and "base64_url_encode(" in exts[1][1] and "to_vec(" in exts[1][1]
         if not ok and ch is not None and len(ch) == 1:
             ok, exts = unsigned_token_ok(f, ch[0], hc.bb)
+        fixed = FIXED_ORDER.get(hc.callee)
+        if not ok and fixed is not None and len(hc.args) >= 3:
+            # `helper(&header_part, &payload_part)` with the helper feeding a, ".", b: the two parts are b64(header_str) and
+            # b64(to_vec(payload)), and the token is assembled from the same two values
+            da, db = decision.describe_deep(f, hc.args[1], 5), decision.describe_deep(f, hc.args[2], 5)
+            ok = fixed == ["arg2", ".", "arg3"] and "base64_url_encode(" in da and "header_str(" in da and "base64_url_encode(" in db and "to_vec(" in db
+            exts = [da[:40], ".", db[:40]]
         ck.ob(R, "issue:signed-bytes", ok, f.loc(hc.sp), "" if ok else "issue() MACs %s, expected b64(header_str) + '.' + b64(to_vec(payload)) once" % (exts,), how="helper([b64(header) . b64(payload)])")
     else:
         ck.floor(R, "issue arms", len(macs), 3)
